@@ -217,6 +217,23 @@ Section Returned.
     fluent_get tgt (fluents s') =
     Some (match k with AAssign => v | AIncrease => old + v | ADecrease => old - v end)%float.
   Proof. exact (numeric_prestate d eps a effs args ga objs s Hd Hn Hg Hev false order uorder s' true Happ (or_introl eq_refl) Hc Ho Hu Hret). Qed.
+  (* conditional effects fire on the state BEFORE the action: a 'when' whose condition holds there adds its atoms, whatever
+     the other effects do to the atoms the condition reads ... *)
+  Theorem C03_when_adds_lemma : forall c ps p pargs,
+    In (EWhen c ps) effs -> In (PAdd p pargs) ps ->
+    let e := bind_args (spec_action a effs) args in
+    holds eps (d_types d) objs e s c = true ->
+    atom_in (p, map (subst e) pargs) (facts s') = true.
+  Proof. exact (when_adds d eps a effs args ga objs s Hd Hn Hg Hev false order uorder s' true Happ (or_introl eq_refl) Hc Ho Hu Hret). Qed.
+
+  (* ... and so does every instance of a 'forall-when', the variable ranging over the objects of the type and its subtypes *)
+  Theorem C03_forall_when_adds_lemma : forall v ty c ps p pargs o,
+    In (EForall v ty c ps) effs -> In (PAdd p pargs) ps ->
+    In o (objects_of_type (d_types d) objs ty) ->
+    let e := (v, o) :: bind_args (spec_action a effs) args in
+    holds eps (d_types d) objs e s c = true ->
+    atom_in (p, map (subst e) pargs) (facts s') = true.
+  Proof. exact (forall_when_adds d eps a effs args ga objs s Hd Hn Hg Hev false order uorder s' true Happ (or_introl eq_refl) Hc Ho Hu Hret). Qed.
 End Returned.
 
 (* the hypotheses are satisfiable by a non-trivial action (add, delete, delete+add of one atom, increase, a firing
